@@ -38,6 +38,70 @@ def type_size(src, ty, rel):
     return sum(type_size(src, t, rel) for _, t in struct_fields(src, ty, rel))
 
 
+def conditions(body):
+    """The conditions of every `if` / `else if` (not `if let`) and every `assert!` of a function
+    body, in source order, whitespace-normalised."""
+    out = []
+    for m in re.finditer(r"\b(if|assert!)\b", body):
+        j = m.end()
+        if m.group(1) == "if":
+            if re.match(r"\s*let\b", body[j:]):
+                continue
+            depth, k = 0, j
+            while k < len(body):
+                c = body[k]
+                if c in "([":
+                    depth += 1
+                elif c in ")]":
+                    depth -= 1
+                elif c == "{" and depth == 0:
+                    break
+                elif body.startswith("=>", k) and depth == 0:
+                    break  # a match guard
+                k += 1
+            cond = body[j:k]
+        else:
+            k = body.index("(", j)
+            depth, e = 0, k
+            while True:
+                if body[e] == "(":
+                    depth += 1
+                elif body[e] == ")":
+                    depth -= 1
+                    if depth == 0:
+                        break
+                e += 1
+            cond = "assert " + body[k + 1:e]
+        out.append(" ".join(cond.split()))
+    return out
+
+
+def lean_str_list(xs):
+    return "[" + ", ".join('"%s"' % x.replace("\\", "\\\\").replace('"', '\\"') for x in xs) + "]"
+
+
+def impl_fn_body(src, impl_name, fn, rel):
+    """Body of `fn` inside one of the `impl <impl_name> {` blocks."""
+    ms = list(re.finditer(r"\bimpl(?:<[^>]*>)?\s+%s\s*\{" % re.escape(impl_name), src))
+    if not ms:
+        raise exlib.ExtractError("impl %s not found in %s" % (impl_name, rel))
+    for m in ms:
+        i = m.end() - 1
+        depth, j = 0, i
+        while j < len(src):
+            if src[j] == "{":
+                depth += 1
+            elif src[j] == "}":
+                depth -= 1
+                if depth == 0:
+                    break
+            j += 1
+        block = src[i:j + 1]
+        if re.search(r"\bfn\s+%s\b" % re.escape(fn), block):
+            return exlib.fn_body(block, fn, 0, "%s (impl %s)" % (rel, impl_name))
+    raise exlib.ExtractError("fn %s not found in any impl %s of %s" % (fn, impl_name, rel))
+
+
 def run(repo):
     rel = "map/src/format.rs"
     src = exlib.strip_rust_comments(exlib.read(repo, rel))
@@ -93,6 +157,21 @@ def run(repo):
                 break
         j += 1
     s += "\n/-- integer literals of `MapItemLayerV1TilemapExtraRace::offset` -/\ndef lits_extra_offset : List Nat := %s\n" % exlib.lean_nat_list(exlib.int_literals(src[i:j + 1]))
+    s += "\n/-- conditions of `MapItemExt::from_slice_rest` -/\ndef conds_from_slice_rest : List String := %s\n" % lean_str_list(conditions(exlib.fn_body(src, "from_slice_rest", 0, rel)))
+    s += "/-- conditions of `MapItemLayerV1TilemapExtraRace::from_slice` -/\ndef conds_extra_from_slice : List String := %s\n" % lean_str_list(conditions(impl_fn_body(src, "MapItemLayerV1TilemapExtraRace", "from_slice", rel)))
+    rd = exlib.strip_rust_comments(exlib.read(repo, "map/src/reader.rs"))
+    for fn in ("get_index_impl", "get_index_opt"):
+        s += "/-- conditions of `%s` (map/src/reader.rs) -/\ndef conds_%s : List String := %s\n" % (fn, fn, lean_str_list(conditions(exlib.fn_body(rd, fn, 0, "map/src/reader.rs"))))
+    for impl, fn in (("Group", "from_raw"), ("LayerTilemap", "from_raw"), ("Layer", "from_raw"), ("Image", "from_raw"), ("SettingsIter<'a>", "next")):
+        try:
+            body = impl_fn_body(rd, impl, fn, "map/src/reader.rs")
+        except exlib.ExtractError:
+            m2 = re.search(r"impl<'a>\s+Iterator\s+for\s+SettingsIter<'a>\s*\{", rd)
+            if not m2:
+                raise
+            body = exlib.fn_body(rd[m2.start():], fn, 0, "map/src/reader.rs")
+        name = re.sub(r"[^A-Za-z]", "", impl.replace("<'a>", ""))
+        s += "/-- conditions of `%s::%s` (map/src/reader.rs) -/\ndef conds_%s_%s : List String := %s\n" % (impl, fn, name, fn, lean_str_list(conditions(body)))
     s += "\nend Tw.Gen.MapItems\n"
 
     rel2 = "datafile/src/format.rs"
@@ -125,5 +204,19 @@ def run(repo):
         t += "def lits_%s : List Nat := %s\n" % (fn, exlib.lean_nat_list(exlib.int_literals(exlib.fn_body(f, fn, 0, rel2))))
     for fn in ("item_header", "data_size_file", "item"):
         t += "def lits_%s : List Nat := %s\n" % (fn, exlib.lean_nat_list(exlib.int_literals(exlib.fn_body(raw, fn, 0, "datafile/src/raw.rs"))))
+    for fn in ("check", "data_size_file", "item_type_indices", "read_data", "item_type"):
+        t += "/-- conditions (`if`, `assert!`) of `Reader::%s` in datafile/src/raw.rs, in source order -/\n" % fn
+        t += "def conds_raw_%s : List String := %s\n" % (fn, lean_str_list(conditions(impl_fn_body(raw, "Reader", fn, "datafile/src/raw.rs"))))
+    for impl, fn in (("HeaderVersion", "check"), ("HeaderRest", "check"), ("Header", "read"), ("Header", "check_size_and_swaplen"), ("Header", "calculate_size_field"), ("Header", "calculate_total_size")):
+        t += "/-- conditions of `%s::%s` in datafile/src/format.rs -/\n" % (impl, fn)
+        t += "def conds_%s_%s : List String := %s\n" % (impl, fn, lean_str_list(conditions(impl_fn_body(f, impl, fn, rel2))))
+    fl = exlib.strip_rust_comments(exlib.read(repo, "datafile/src/file.rs"))
+    t += "/-- conditions of `Reader::new_impl` and the seek-base expression of datafile/src/file.rs -/\n"
+    nb = exlib.fn_body(fl, "new_impl", 0, "datafile/src/file.rs")
+    m3 = re.findall(r"\bseek_base:\s*([^\n]+),\n", nb)
+    if not m3:
+        raise exlib.ExtractError("seek_base initialiser of CallbackData not found in datafile/src/file.rs")
+    t += "def file_seek_base_expr : String := %s\n" % lean_str_list([" ".join(m3[-1].split())])[1:-1]
+    t += "def conds_file_ensure_filesize : List String := %s\n" % lean_str_list(conditions(exlib.fn_body(fl, "ensure_filesize", 0, "datafile/src/file.rs")))
     t += "\nend Tw.Gen.Datafile\n"
     return {"MapItems.lean": s, "Datafile.lean": t}
